@@ -202,10 +202,26 @@ def run_family(prop, fam, tier, seed, rundir, extra, tag, replay=None, n=None, h
         corpus = os.path.join(ROOT, "corpus", "%s.%s.ops" % (prop, fam))
         if os.path.exists(corpus):
             cmd += ["--corpus", corpus]
+    cur = os.path.join(rundir, "current_%s.txt" % tag)
+    henv = dict(ENV)
+    henv["MPDVERIF_CURRENT"] = cur
     with open(ops, "w") as f:
-        r = subprocess.run(cmd, stdout=f, stderr=subprocess.PIPE, env=ENV, timeout=7200)
+        r = subprocess.run(cmd, stdout=f, stderr=subprocess.PIPE, env=henv, timeout=7200)
     if r.returncode != 0:
-        raise RuntimeError("harness failed: %s\n%s" % (" ".join(cmd), r.stderr.decode()[-2000:]))
+        # the harness died (abort / stack overflow / allocation failure inside the code under test):
+        # attribute it to the operation that was running
+        if os.path.exists(cur):
+            with open(cur) as f:
+                op = f.read().strip()
+            with open(ops, "rb+") as f:
+                data = f.read()
+                keep = data[: data.rfind(b"\n") + 1] if b"\n" in data else b""
+                f.seek(0)
+                f.truncate()
+                f.write(keep + (op + " => CRASH\n").encode())
+            sys.stderr.write("harness died (rc=%s) while executing: %s\n%s\n" % (r.returncode, op[:200], r.stderr.decode()[-600:]))
+        else:
+            raise RuntimeError("harness failed: %s\n%s" % (" ".join(cmd), r.stderr.decode()[-2000:]))
     run_driver(ops, outp)
     cases = []
     with open(ops) as fi, open(outp) as fo:
@@ -230,6 +246,9 @@ def classify(prop, cases, known_open):
     for c in cases:
         res["n"] += 1
         res["branches"][c["branch"]] = res["branches"].get(c["branch"], 0) + 1
+        if c["impl"] == "CRASH":
+            c["oracle"] = "fail:harness-process-died-on-this-input"
+            c["cls"] = "-"
         if c["oracle"] != "ok":
             if c["cls"] != "-" and c["cls"] in known_open:
                 res["kf"].setdefault(c["cls"], []).append(c)
